@@ -27,13 +27,13 @@ theorem value_roundtrip (v : PV) (h : WF v) : decode (encode v) = canon v :=
   Lemmas.value_roundtrip v h
 
 /-- Arrays keep dtype, shape and values for every memory layout (1): an array that is not a short 1-D
-non-complex one comes back as an array whose dtype string is the saved one (byte order included: it
+non-complex, non-long-double one comes back as an array whose dtype string is the saved one (byte order included: it
 is read from the marker's `dtype` entry), whose shape is the saved one (read from the `shape` entry),
 C-contiguous, holding `np.ascontiguousarray` of the saved array.  The array is given as NumPy has it:
 (shape, strides, offset, buffer) — C order, Fortran order, transposed, strided, reversed views are
 particular strides/offsets. -/
 theorem array_roundtrip (dtype : String) (shape : List Nat) (strides : List Int) (off : Int) (mem : List Int)
-    (hbig : ∀ n, shape = [n] → (n ≤ 10 && !isComplexDtype dtype) = false) :
+    (hbig : ∀ n, shape = [n] → (n ≤ 10 && !noListDtype dtype) = false) :
     decode (encode (.arr dtype shape strides off mem)) =
       .arr dtype shape (cStrides shape) 0 (gather mem shape strides off) :=
   Lemmas.array_roundtrip dtype shape strides off mem hbig
@@ -47,10 +47,10 @@ theorem array_elements_preserved (shape : List Nat) (strides : List Int) (off : 
     getAt (cStrides shape) 0 (gather mem shape strides off) idx = getAt strides off mem idx :=
   Lemmas.array_elements_preserved shape strides off mem idx hl hi
 
-/-- One-dimensional arrays of at most ten items (non-complex dtype) come back as the list of their
+/-- One-dimensional arrays of at most ten items (neither complex nor long double: `noListDtype`) come back as the list of their
 elements in index order, whatever the stride (`a[::2]`, `a[::-1]`). -/
 theorem small_array_roundtrip (dtype : String) (n : Nat) (s : Int) (off : Int) (mem : List Int)
-    (hn : n ≤ 10) (hc : isComplexDtype dtype = false) :
+    (hn : n ≤ 10) (hc : noListDtype dtype = false) :
     decode (encode (.arr dtype [n] [s] off mem)) =
       .list (ofInts ((List.range n).map fun (i : Nat) => getMem mem (off + (i : Int) * s))) :=
   Lemmas.small_array_roundtrip dtype n s off mem hn hc
@@ -297,6 +297,18 @@ example : decode (encode (.arr "int32" [3] [-1] 2 [1, 2, 3])) = .list (.cons (.i
 example : decode (encode (.list (.cons (.arr ">f4" [2, 3] [1, 2] 0 [10, 20, 11, 21, 12, 22]) (.cons (.npScalar 7) .nil)))) =
     .list (.cons (.arr ">f4" [2, 3] [3, 1] 0 [10, 11, 12, 20, 21, 22]) (.cons (.int 7) .nil)) := by
   rfl
+-- NumPy scalars without a JSON number form (long double, complex): written as the 0-d array, come back as a 0-d array
+-- of the same dtype holding the value; a 3-item long double array is not written as a list of numbers
+example : decode (encode (.npExotic "float128" 7)) = .arr "float128" [] [] 0 [7] ∧ canon (.npExotic "complex64" 7) = .arr "complex64" [] [] 0 [7] :=
+  ⟨by rfl, by rfl⟩
+example : decode (encode (.arr "float128" [3] [-1] 2 [1, 2, 3])) =
+      .arr "float128" [3] (cStrides [3]) 0 (gather [1, 2, 3] [3] [-1] 2) ∧ gather [1, 2, 3] [3] [-1] 2 = [3, 2, 1] ∧
+    noListDtype "float128" = true ∧ noListDtype "complex256" = true ∧ noListDtype "float64" = false :=
+  ⟨array_roundtrip _ _ _ _ _ (by
+      intro n _
+      have : noListDtype "float128" = true := by decide +kernel
+      simp [this]),
+   by decide, by decide +kernel, by decide +kernel, by decide +kernel⟩
 -- the hook reads dtype and shape from the marker: other entries give another array
 example : decode (.dict (.cons "__ndarray__" (.payload "int16" [1, 2, 3, 4, 5, 6])
       (.cons "dtype" (.str "int16") (.cons "shape" (.list (ofNats [3, 2])) .nil)))) =
@@ -304,6 +316,16 @@ example : decode (.dict (.cons "__ndarray__" (.payload "int16" [1, 2, 3, 4, 5, 6
 example : IdxOK [2, 3] [1, 2] ∧ getAt [1, 2] 0 [10, 20, 11, 21, 12, 22] [1, 2] = 22 ∧
     getAt (cStrides [2, 3]) 0 (gather [10, 20, 11, 21, 12, 22] [2, 3] [1, 2] 0) [1, 2] = 22 :=
   ⟨by simp [IdxOK], by decide, by decide⟩
+-- `int()` / `float()` convert Unicode decimal digits and white space first: Arabic-Indic "12", fullwidth "1.5", a
+-- number between no-break spaces, a mathematical bold zero are numeric literals; superscript two, a circled one, a
+-- zero-width space in front are not
+example : tryMakeNumber "١٢" = .int 12 ∧ tryMakeNumber "１.５" = .float false 15 (-1) ∧
+    tryMakeNumber " -7 " = .int (-7) ∧ tryMakeNumber "𝟎" = .int 0 ∧
+    tryMakeNumber "²" = .text "²" ∧ tryMakeNumber "①" = .text "①" ∧
+    tryMakeNumber "​12" = .text "​12" ∧ ¬ NonNumeric "١٢" := by
+  refine ⟨by decide +kernel, by decide +kernel, by decide +kernel, by decide +kernel, by decide +kernel, by decide +kernel,
+    by decide +kernel, ?_⟩
+  intro h; exact absurd h.2 (by decide +kernel)
 example : intifyKey (stringifyKey (.int (-1))) = .int (-1) := by decide
 example : intifyKey (stringifyKey (.str "12")) = .int 12 := by decide     -- why digit strings are out of scope
 example : writeTsv (fun (c : Cell) => match c with | .int i => toString i | .float t => s!"f{t}" | .text s => s)
